@@ -22,6 +22,18 @@ def pairUp : List String → List (String × String)
 def decPRows (s : String) : List (String × Seq) :=
   if s == "_" || s == "" then [] else (pairUp (s.splitOn "/")).map fun p => (pctDec p.1, bytesOfString p.2)
 
+/-- a list of names on the wire: percent-encoded, `/`-separated, `_` when empty -/
+def decNames (s : String) : List String := if s == "_" || s == "" then [] else (s.splitOn "/").map pctDec
+
+/-- the `maskreplace` string (`_` = the empty string) -/
+def decMaskRep (s : String) : MaskRep :=
+  if s == "_" || s == "" || s == "AMBIG" then .ambig
+  else if s == "GAP" then .gap
+  else if s == "MAJ" then .maj
+  else match bytesOfString s with
+    | [c] => .char c
+    | _ => .bad
+
 def encPRows (rows : List (String × Seq)) : String :=
   if rows.isEmpty then "_" else "/".intercalate (rows.flatMap fun r => [pctEnc r.1, stringOfBytes r.2])
 
@@ -176,6 +188,20 @@ def decOp (s : String) : Option (Op × List String) :=
   | ["compress"] => some (.compress, [])
   | ["unalign"] => some (.unalign, [])
   | ["setalpha", a] => (parseInt? a).map fun v => (.setAlpha v, [])
+  | ["mask", r, st, ln, rep, ng, nr] => do
+    let a ← parseInt? st; let l ← parseInt? ln
+    let ref := if r == "_" then "" else pctDec r
+    pure (.mask ref a l (decMaskRep (pctDec rep)) (decBool ng) (decBool nr), if ref == "" then [] else [ref])
+  | ["maskocc", r, mo, rep] => do
+    let m ← parseInt? mo
+    let ref := if r == "_" then "" else pctDec r
+    pure (.maskOcc ref m (decMaskRep (pctDec rep)), if ref == "" then [] else [ref])
+  | ["maskuniq", r, rep] =>
+    let ref := if r == "_" then "" else pctDec r
+    some (.maskOcc ref 1 (decMaskRep (pctDec rep)), if ref == "" then [] else [ref])
+  | ["diffwithfirst"] => some (.diffFirst, [])
+  | ["replacematch"] => some (.replaceMatch, [])
+  | ["revcompseqs", r] => let names := decNames r; some (.revcompSeqs names, names)
   | ["rmgapsites", f, e] => do
     let (x, y) ← frac f
     pure (.rmGapSites x y (decBool e), [])
